@@ -1725,11 +1725,16 @@ class Interp:
                 return r
         f = self.eval(e.func, fr)
         args = []
+        packed = False
         for a in e.args:
             if isinstance(a, ast.Starred):
                 v = self.force(self.eval(a.value, fr))
                 if isinstance(v, (VList, VTuple)):
                     args.extend(v.items)
+                elif isinstance(v, VOpaque):
+                    # an opaque argument pack (f(*args) of a stored call): only an opaque callee's model may take it
+                    args.append(VStarred(v))
+                    packed = True
                 else:
                     raise OutOfSubset("*args of symbolic sequence")
             else:
@@ -1740,10 +1745,15 @@ class Interp:
                 v = self.force(self.eval(k.value, fr))
                 if isinstance(v, VDict):
                     kwargs.update(v.d)
+                elif isinstance(v, VOpaque):
+                    kwargs["**"] = v
+                    packed = True
                 else:
                     raise OutOfSubset("**kwargs")
             else:
                 kwargs[k.arg] = self.eval(k.value, fr)
+        if packed and not isinstance(self.force(f), VOpaque):
+            raise OutOfSubset("opaque *args/**kwargs passed to a non-opaque callee")
         return self.call(f, args, kwargs, fr, e)
 
     def spec_call(self, e, fr, src):
@@ -1832,6 +1842,8 @@ class Interp:
             return VSeq(z3.If(c, a.z, b.z), a.elem)
         if isinstance(a, VReal) or isinstance(b, VReal):
             return VReal(z3.If(c, self._real(a), self._real(b)))
+        if isinstance(a, VOpaque) and isinstance(b, VOpaque) and a.name == b.name:
+            return VOpaque(z3.If(c, a.z, b.z), a.name)
         if a is NONE and b is not NONE:
             return VOpt(c, b)
         if b is NONE and a is not NONE:
@@ -2021,6 +2033,13 @@ class Interp:
             return self.eval(tree.body, sf)
         finally:
             self.spec_mode -= 1
+
+
+class VStarred(V):
+    """*pack where pack is an opaque argument tuple"""
+
+    def __init__(self, v):
+        self.v = v
 
 
 class VSeqResult:
